@@ -31,7 +31,8 @@ CHECKS['C01'] = dict(category='proof',
         'logical supports are summarised by the derived builder rule. z3 discharges, with no bound on L: any two generators commute (15 classes, incl. the four '
         'colour codes), every listed logical commutes with every generator and X_i/Z_j anticommute iff i=j (11 classes; XCube for its L-dependent k). '
         'rank(H)=n-k, HollowRhombic, colour-code logicals, pairs whose overlap grows with L, and every clause on every deformed code are run-time contracts on '
-        'real objects (bounded, named as such in the evidence). Quick tier omits the 22 slowest obligations (Color666Toric, one RhombicToric pair).',
+        'real objects (bounded, named as such in the evidence). Parities are xor trees over the pair conditions and coordinates modulo a lattice period are linearised after a '
+        'proved range side condition (rule discharged as C01.lemma[mod-linearisation]); both tiers discharge the same 157 obligations.',
    note='Supported-size families are preconditions. Trusted: z3 (LIA + qe), the pyvc executor and builder rule (every counter-model is replayed on the real '
         'class). Known findings F-C01-a/b/c (RotatedToric3D odd x odd, non-square Color488 / Color666Toric) are proved-around by conjoining the negated region.',
    technique='VCs from the AST of each lattice class with symbolic lattice size (symbolic execution + builder-rule summaries), z3 LIA; run-time contracts for rank')
